@@ -127,9 +127,7 @@ pub fn run(ctx: &Ctx) -> Report {
         let mut s = Vec::new();
         nth_bytes_upto(&alpha, l2, i, &mut s);
         check_input(&s, acc, false);
-        if sample_key(seed, i) < (1u64 << 44) {
-            acc.sample(sample_key(seed, i), json!({"bytes": hx(&s)}));
-        }
+        acc.maybe_sample(sample_key(seed, i), || json!({"bytes": hx(&s)}));
     });
     rep.evaluations += n2;
     rep.absorb(acc);
@@ -161,9 +159,7 @@ pub fn run(ctx: &Ctx) -> Report {
                 emit(s, &leaves, &mut idx, &mut out);
                 check_input(&out, acc, true);
                 acc.inc("token_sequences");
-                if sample_key(seed, i) < (1u64 << 43) {
-                    acc.sample(sample_key(seed, i) | (1 << 63), json!({"token_sequence": hx(&out)}));
-                }
+                acc.maybe_sample(sample_key(seed, i) | (1 << 63), || json!({"token_sequence": hx(&out)}));
             });
             rep.evaluations += total;
             rep.absorb(acc);
